@@ -11,6 +11,7 @@
 
 #include <iora/parsers/json.hpp>
 
+#include <algorithm>
 #include <cmath>
 #include <cstring>
 #include <memory>
@@ -302,6 +303,52 @@ PBT_PROPERTY(mutate)
   }
 }
 
+
+// ----------------------------------------------------------------------- stream
+// JsonStreamParser: the same RFC 8259-valid text fed in arbitrary chunks (every cut
+// position is reachable, including inside literals, numbers and \uXXXX escapes) must end
+// in finish() == true with the value the generating tree describes.
+PBT_PROPERTY(stream)
+{
+  refjson::GenOpts go;
+  go.maxDepth = 3;
+  go.maxWidth = 4;
+  V v = refjson::genValue(src, go, 0);
+  refjson::Features feat;
+  std::string text = refjson::render(src, v, feat, go);
+  // chunking: byte-by-byte, one cut, or several generated cuts
+  std::vector<std::size_t> cuts;
+  int mode = (int)src.range(0, 2);
+  if (mode == 0) for (std::size_t i = 1; i < text.size(); ++i) cuts.push_back(i);
+  else if (mode == 1) { if (text.size() > 1) cuts.push_back((std::size_t)src.range(1, (std::int64_t)text.size() - 1)); }
+  else
+  {
+    auto rows = src.rows(6, 1, 0, 1 << 20);
+    for (auto &r : rows) if (text.size() > 1) cuts.push_back(1 + (std::size_t)r[0] % (text.size() - 1));
+    std::sort(cuts.begin(), cuts.end());
+    cuts.erase(std::unique(cuts.begin(), cuts.end()), cuts.end());
+  }
+  c.describe(pbt::Fmt() << "mode=" << mode << " cuts=" << cuts.size() << " text=" << pbt::show(text, 400));
+  if (!cuts.empty() && (feat.escapes || feat.nonIntegerNumbers || feat.maxDepth >= 1 || text.find_first_of("tfn") != std::string::npos))
+    c.nontrivial(pbt::hashMix(pbt::hash64(text), cuts.size() * 31 + (cuts.empty() ? 0 : cuts[0])));
+  if (feat.unicodeEscapes) c.label("stream: has \\u escape");
+  iora::parsers::JsonStreamParser sp;
+  std::size_t prev = 0;
+  for (std::size_t cut : cuts)
+  {
+    sp.feed(std::string_view(text).substr(prev, cut - prev));
+    prev = cut;
+  }
+  sp.feed(std::string_view(text).substr(prev));
+  if (!sp.finish())
+  {
+    c.fail("C13/stream/valid-text-rejected", pbt::Fmt() << "finish() false after feeding a valid text in " << cuts.size() + 1 << " chunks: " << sp.error().message);
+    return;
+  }
+  std::string why;
+  if (!equalJV(sp.value(), v, why, "$")) c.fail("C13/stream/value-differs", why);
+}
+
 // ----------------------------------------------------------------------- limits
 PBT_PROPERTY(limits)
 {
@@ -310,7 +357,7 @@ PBT_PROPERTY(limits)
   // only the probed limit is small; the others stay at their defaults so that they
   // cannot interfere (keys like "k12" would otherwise trip stringLengthMax)
   ParseLimits lim;
-  int which = (int)src.range(0, 3);
+  int which = (int)src.range(0, 4); // 4 = string limit probed with an escaped spelling
   std::size_t L = (std::size_t)src.range(1, 40);
   (which == 0 ? lim.depthMax : which == 1 ? lim.arrayItemsMax : which == 2 ? lim.membersMax : lim.stringLengthMax) = L;
   std::size_t n = (std::size_t)src.range(0, (std::int64_t)L * 2 + 3);
@@ -333,8 +380,27 @@ PBT_PROPERTY(limits)
     for (std::size_t i = 0; i < n; ++i) text += std::string(i ? "," : "") + "\"k" + std::to_string(i) + "\":0";
     text += "}";
     break;
-  default:
+  case 3:
     text = "\"" + std::string(n, 'x') + "\"";
+    break;
+  default:
+  {
+    // decoded length n (ASCII letters), every character written as an escape: the limit is
+    // documented as the maximum STRING length, so the escaped spelling must not count
+    text = "\"";
+    bool asKey = src.coin(1, 3);
+    for (std::size_t i = 0; i < n; ++i)
+    {
+      switch (src.range(0, 2))
+      {
+      case 0: text += "\\u0041"; break;
+      case 1: text += "\\u00" + std::string(1, "4567"[src.range(0, 3)]) + std::string(1, "12345"[src.range(0, 4)]); break;
+      default: text += "\\/"; break;
+      }
+    }
+    text += "\"";
+    if (asKey) text = "{" + text + ":0}";
+  }
   }
   c.describe(pbt::Fmt() << "which=" << which << " limit=" << L << " n=" << n << " text=" << pbt::show(text, 200));
   c.nontrivial(pbt::hashMix(which, pbt::hashMix(L, n * 2 + obj)));
@@ -349,7 +415,7 @@ PBT_PROPERTY(limits)
                          : (n > L + 1 ? "beyond limit" : "at limit"));
   if (strictlyInside && !r.ok)
     c.fail("C13/limits/inside-rejected", pbt::Fmt() << "text within limit rejected: " << r.error.message);
-  if (n > L + 1 && r.ok && which != 3)
+  if (n > L + 1 && r.ok && which < 3)
     c.fail("C13/limits/beyond-accepted", pbt::Fmt() << "text beyond the limit (" << n << " > " << L << ") accepted");
   if (!r.ok && r.error.where.offset > text.size())
     c.fail("C13/mutate/error-offset-outside", "error offset outside input");
